@@ -157,6 +157,22 @@ type dialCancelParam struct {
 	Canceller int      `json:"canceller"` // 0 = the dial leader, j = waiter j
 	Scripts   []script `json:"scripts"`
 	IdleMs    int      `json:"idle_ms"`
+	// How the canceller goes away: "" = cancel(); "deadline" = its own context carries a deadline
+	// (context.WithTimeout of DeadlineMs, started when it subscribes) that ends while the upstream
+	// withholds the upgrade / the connection_ack.
+	How        string `json:"how,omitempty"`
+	DeadlineMs int    `json:"deadline_ms,omitempty"`
+}
+
+// genDialDeadline: the K1/K2 situation with the leaver's context ending by deadline.
+func genDialDeadline(r *rand.Rand, window string) dialCancelParam {
+	p := genDialCancel(r, window, false)
+	p.How = "deadline"
+	p.DeadlineMs = []int{40, 80, 150}[r.IntN(3)]
+	if r.IntN(10) < 8 {
+		p.Canceller = 0
+	}
+	return p
 }
 
 func genDialCancel(r *rand.Rand, window string, sse bool) dialCancelParam {
@@ -188,8 +204,27 @@ func runDialCancel(p dialCancelParam, withCancel bool, tag string) (rep *runRepo
 		subs = append(subs, e.newSub(fmt.Sprintf("k%d", i), p.Tuple, p.Scripts[i]))
 	}
 	sse := p.Tuple.Transport == "sse"
-	subs[0].start()
-	ok := e.wait("upstream to see the dial leader's connection in the withheld state", func() bool {
+	// deadline form: the leaver's context is a context.WithTimeout that starts when it subscribes.
+	// The scenario never races it: it waits for the departure (Subscribe returned, context ended)
+	// before the upstream lets anything through. A deadline that ends before the waiters are parked
+	// only makes the case trivial (left() ends the waits early), never changes the verdict.
+	byDeadline := withCancel && p.How == "deadline"
+	leaver := subs[p.Canceller]
+	startSub := func(s *subscriber) {
+		if byDeadline && s == leaver {
+			s.leaveByDeadline(time.Duration(p.DeadlineMs)*time.Millisecond, "dial."+p.Window+".deadline")
+			s.start()
+			go func() {
+				<-s.ctx.Done()
+				s.cancel("dial." + p.Window + ".deadline")
+			}()
+			return
+		}
+		s.start()
+	}
+	left := func() bool { return byDeadline && leaver.isCancelled() }
+	startSub(subs[0])
+	withheld := func() bool {
 		for _, ci := range e.up.snapshot() {
 			if p.Window == "ack" && ci.InitSeen && !ci.Acked {
 				return true
@@ -199,22 +234,33 @@ func runDialCancel(p dialCancelParam, withCancel bool, tag string) (rep *runRepo
 			}
 		}
 		return false
-	})
+	}
+	ok := e.wait("upstream to see the dial leader's connection in the withheld state", func() bool { return withheld() || left() }) && withheld()
 	if ok {
 		for _, s := range subs[1:] {
-			s.start()
+			startSub(s)
 		}
 		if sse {
 			// SSE has no shared connection: every subscriber has its own withheld request
 			parked = e.wait("upstream to see every withheld SSE request", func() bool { return e.up.connCount() == p.Waiters+1 })
 		} else {
-			parked = e.note.until(stepWatchdog, func() bool { return parkedDialWaiters() == p.Waiters })
-			if !parked {
+			seen := false
+			e.note.until(stepWatchdog, func() bool {
+				if !left() && parkedDialWaiters() == p.Waiters {
+					seen = true
+				}
+				return seen || left()
+			})
+			parked = seen
+			if !parked && !left() {
 				e.fail("hook", fmt.Sprintf("only %d of %d waiters observed parked on the shared dial", parkedDialWaiters(), p.Waiters))
 			}
 		}
 	}
-	if ok && parked && withCancel {
+	if byDeadline {
+		// the deadline does the cancelling; nothing is released before the leaver has gone
+		e.wait("the subscriber whose context carries the deadline to leave", func() bool { return leaver.isCancelled() && leaver.isReturned() })
+	} else if ok && parked && withCancel {
 		c := subs[p.Canceller]
 		c.cancel("dial." + p.Window)
 		e.wait("cancelled subscriber's Subscribe to return", c.isReturned)
@@ -597,6 +643,137 @@ func runIdle(p idleParam, withCancel bool, tag string) (rep *runReport, reused b
 	rep = e.judge()
 	e.finish(rep)
 	return rep, reused
+}
+
+// ---------------------------------------------------------------------------------------------
+// scenario 11: idle-period histories. With an idle period configured, one connection goes through
+// several rounds of "runs empty -> (is picked up again during the idle period and stays in use past
+// that period's end | is picked up again briefly | is closed and replaced)"; after the last round
+// nobody is left and the connection must go away (finish: connections -> 0).
+
+type idleRound struct {
+	Ends []string `json:"ends"` // how each subscription of the round ends: cancel | complete | error
+	// what follows once the round's last subscription has ended (the connection runs empty):
+	//  reuse-hold  : the next round subscribes at once (during the idle period) and is still subscribed when that period is over
+	//  reuse-brief : the next round subscribes at once and ends at once (before that period is over)
+	//  after-close : the next round starts after the upstream saw the connection closed
+	//  ""          : last round
+	Next string `json:"next,omitempty"`
+}
+
+type idleHistParam struct {
+	Tuple  *tuple      `json:"tuple"`
+	IdleMs int         `json:"idle_ms"`
+	Rounds []idleRound `json:"rounds"`
+}
+
+func genIdleHist(r *rand.Rand) idleHistParam {
+	p := idleHistParam{Tuple: randTuple(r, false), IdleMs: []int{20, 30, 50}[r.IntN(3)]}
+	n := 2 + r.IntN(3)
+	hold := false
+	for i := 0; i < n; i++ {
+		var rd idleRound
+		for j := 1 + r.IntN(3); j > 0; j-- {
+			rd.Ends = append(rd.Ends, []string{"cancel", "cancel", "complete", "error"}[r.IntN(4)])
+		}
+		if i < n-1 {
+			switch x := r.IntN(10); {
+			case x < 6:
+				rd.Next = "reuse-hold"
+				hold = true
+			case x < 8:
+				rd.Next = "reuse-brief"
+			default:
+				rd.Next = "after-close"
+			}
+		}
+		p.Rounds = append(p.Rounds, rd)
+	}
+	if !hold {
+		p.Rounds[r.IntN(n-1)].Next = "reuse-hold"
+	}
+	return p
+}
+
+// runIdleHist returns the report, the number of rounds that verifiably re-used the connection left
+// empty by the round before (same upstream connection id) and, of those, the rounds that stayed
+// subscribed until the idle period started by that run-empty was over.
+func runIdleHist(p idleHistParam, tag string) (rep *runReport, reused, held int) {
+	idle := time.Duration(p.IdleMs) * time.Millisecond
+	e := newEnv(tag, envCfg{idle: idle})
+	prevConn, prevNext := 0, ""
+rounds:
+	for ri, rd := range p.Rounds {
+		var subs []*subscriber
+		for j := range rd.Ends {
+			subs = append(subs, e.newSub(fmt.Sprintf("r%d.%d", ri, j), p.Tuple, manual()))
+		}
+		if !e.establish(subs) {
+			break
+		}
+		cid := 0
+		for _, s := range subs {
+			if s.subscribeErr() != nil {
+				// judged by the oracle (nobody cancelled: a failing Subscribe is a deviation)
+				break rounds
+			}
+			if _, _, c := e.up.sentFor(s.key); c != nil {
+				cid = c.ID
+			}
+		}
+		same := prevConn != 0 && cid == prevConn
+		if same && (prevNext == "reuse-hold" || prevNext == "reuse-brief") {
+			reused++
+		}
+		for _, s := range subs {
+			e.srvSend(s, "next")
+		}
+		if !e.waitQuiet(subs, "round's first messages") {
+			break
+		}
+		if prevNext == "reuse-hold" {
+			// two consecutive timers of the idle period armed after the run-empty: the idle period that
+			// started when the previous round ended is over while this round is still subscribed
+			if !e.elapse(idle, 2, "idle period of the previous run-empty to pass") {
+				break
+			}
+			for _, s := range subs {
+				e.srvSend(s, "next")
+				e.srvSend(s, "next")
+			}
+			if !e.waitQuiet(subs, "messages after the idle period") {
+				break
+			}
+			if same {
+				held++
+			}
+		}
+		for j, s := range subs {
+			switch rd.Ends[j] {
+			case "cancel":
+				s.cancel("established")
+			default:
+				e.srvSend(s, rd.Ends[j])
+			}
+		}
+		if !e.waitQuiet(subs, "round's subscriptions to end") {
+			break
+		}
+		prevConn, prevNext = cid, rd.Next
+		switch rd.Next {
+		case "after-close":
+			// every subscription of the history so far has ended: the connection has to go
+			if !e.awaitConnsGone() {
+				break rounds
+			}
+		case "reuse-hold", "reuse-brief":
+			// upstream terminals: the client drops the subscription right after the handler returned
+			time.Sleep(200 * time.Microsecond)
+		}
+	}
+	rep = e.judge()
+	e.finish(rep)
+	return rep, reused, held
 }
 
 // ---------------------------------------------------------------------------------------------
